@@ -239,7 +239,7 @@ def main(chk):
                 'Stokes, Stokes-space vs angle-space spurious-modulation correction, detphi round trip for DU×roll, polarization table '
                 'before/after rotating every PHI; non-trivial = rotation angle not a multiple of π/2, non-zero spurious (q,u), roll ≠ 0, > 3 events')
     chk.assumptions = TRUSTED
-    chk.lean(['IxpeVerif.Props.C06', 'IxpeVerif.Props.StateAudit'], GEN)
+    chk.lean(['IxpeVerif.Props.C06', 'IxpeVerif.Props.Audit.C06'], GEN)
     n = 100 if chk.tier == 'quick' else 2000
     corr_gen.run(chk, GEN, n=n, tag='C06')
     oracle(chk)
